@@ -612,6 +612,12 @@ func main() {
 	// the consumer of the LAST answered message returns an error: the login must still complete (once)
 	fixed("fixed", []string{"Sp1,Sf2,F", "R1:1:aa,R2:1:bb"}, nil, true)
 	fixed("fixed", []string{"Sf1,F", "R1:0:-"}, nil, true)
+	// relay take-over history: a late plugin message is still outstanding, the inbound is cleared (X, what the auth
+	// handler does) or cleaned up (Z), then backend FML messages are relayed and the client answers late: message
+	// ids must never be reused, so the late answer can only reach its own consumer (or nobody after Z)
+	fixed("fixed", []string{"F,Sp1,X", "Sr5,Sr6", "R1:1:aa,R2:1:bb,R3:1:cc"}, []int{0, 0, 0, 1, 1, 1, 1}, true)
+	fixed("fixed", []string{"F,Sp1,Z", "Sr5,Sr6", "R1:1:aa,R2:1:bb,R3:1:cc"}, []int{0, 0, 0, 1, 1, 1, 1}, true)
+	fixed("fixed", []string{"Sp1,F,Sp2,Z,Sr7", "R1:1:aa,R3:1:bb,R2:1:cc"}, nil, true)
 	// orderly flows
 	fixed("fixed", []string{"Sp1,Sp2,F", "R1:1:aa,R2:1:bb"}, nil, true)
 	fixed("fixed", []string{"Sp1,Sp2,F", "R2:1:aa,R2:1:bb,R7:1:cc,R1:0:dd"}, nil, true)
